@@ -169,9 +169,11 @@ def run(tier):
     cases = []
     # ---------------------------------------------------------------- request model
     halpha = header_alphabet()
-    for one_of, by_url, auth in itertools.product([False, True], [False, True], [None, "tok3n"]):
+    for one_of, by_url, auth, no_ssl in itertools.product([False, True], [False, True], [None, "tok3n", "two words"], [False, True]):
         for hs in ([], ["X-A: v", "Y-B:w:z"]):
-            cases.append({"group": "request", "one_of": one_of, "by_url": by_url, "auth": auth, "headers": hs, "output": "none", "behaviour": ok_small})
+            # (--no-ssl only relaxes certificate checks: against a plain-http endpoint it must change nothing)
+            cases.append({"group": "request", "one_of": one_of, "by_url": by_url, "auth": auth, "headers": hs, "output": "none", "behaviour": ok_small,
+                          "no_ssl": no_ssl})
     for h in halpha:
         cases.append({"group": "header", "one_of": False, "by_url": False, "auth": None, "headers": [h], "output": "existing", "behaviour": ok_small})
     for h1, h2 in [("X-A: v", " Y-B : w "), ("X-A:v", "X-A:again"), ("X-A: v", "nocolon"), ("X A: v", "Y-B: w")]:
@@ -240,6 +242,8 @@ def run(tier):
             argv += ["--is-one-of"]
         if c["by_url"]:
             argv += ["--specify-by-url"]
+        if c.get("no_ssl"):
+            argv += ["--no-ssl"]
         env = base_env()
         rc, out, err = run_process(argv, timeout=60, cwd=root, env=env)
         mock.close()
@@ -256,7 +260,7 @@ def run(tier):
     distinct = set()
     conformance = []
     for c, r in zip(cases, results):
-        label = {"group": c["group"], "flags": {"is_one_of": c["one_of"], "specify_by_url": c["by_url"], "authorization": c["auth"], "headers": c["headers"]},
+        label = {"group": c["group"], "flags": {"is_one_of": c["one_of"], "specify_by_url": c["by_url"], "authorization": c["auth"], "headers": c["headers"], "no_ssl": bool(c.get("no_ssl"))},
                  "output": c["output"], "server": c.get("bdesc", "200 small schema")}
         distinct.add(json.dumps(label, sort_keys=True))
         models = [header_model(h) for h in c["headers"]]
